@@ -342,6 +342,12 @@ def run(ctx):
     # ------------------------------------------------------------------ R01.13 (generic, scoped to this property's anchors)
     sm.rule_named_plumbing(ctx, mir, "C01", "R01.13", floor=96)
 
+    # ------------------------------------------------------------------ R01.14 (= R05.1)
+    # a capture flag that never clears makes all later text go through decode/encode although no handler sees it
+    from .c05 import rule_activation_balance
+    from ..smimpl import index as _index14
+    rule_activation_balance(ctx, _index14(), mir, rid="R01.14")
+
     ctx.not_decided += ["bytes of captured text surviving decode/encode (stated exception of the property)", "arithmetic of Arena::shift / init_with (memory module unit tests)"]
     return ("Structural conditions of 'lexemes and raw gaps tile every chunk exactly once': construction sites and the five writers of "
             "Lexer.lexeme_start, EOF leaves of all %d automaton states, commit order and flush ordering on every CFG path of the dispatcher / "
